@@ -153,18 +153,42 @@ func ruleR3Prereg(c *Ctx) []Obligation {
 			Detail: fmt.Sprintf("%s searches %s and panics on a miss", accName, acc.field.Name())})
 		// 2. registrars of the same field
 		regs := map[*types.Func]bool{}
+		// a function that stores into the registry itself (the registrar inlined: x.Functions = append(x.Functions,
+		// &declared)) with data built from a field of its node parameter is registrar and registrant in one
+		directRoots := map[*types.Func][]string{}
+		rootRe := regexp.MustCompile(`\$\d+\.\w+`)
 		for fn, fd := range decl {
+			f := r2sibFuncOf(c, p, fd)
 			ast.Inspect(fd.Body, func(n ast.Node) bool {
 				as, ok := n.(*ast.AssignStmt)
 				if !ok {
 					return true
 				}
-				for _, l := range as.Lhs {
+				for i, l := range as.Lhs {
 					if ix, ok := ast.Unparen(l).(*ast.IndexExpr); ok {
 						l = ix.X
 					}
 					if v := recvField(fd, l); v != nil && v == acc.field {
 						regs[fn] = true
+						continue
+					}
+					// the registry field reached through another value (self.currentModule.Functions)
+					sel, ok := ast.Unparen(l).(*ast.SelectorExpr)
+					if !ok || info.Uses[sel.Sel] != types.Object(acc.field) || fn == acc.fn {
+						continue
+					}
+					regs[fn] = true
+					if len(as.Lhs) == len(as.Rhs) {
+						rhs := ast.Unparen(as.Rhs[i])
+						stored := []ast.Expr{rhs}
+						if call, ok := rhs.(*ast.CallExpr); ok {
+							if id, ok := ast.Unparen(call.Fun).(*ast.Ident); ok && id.Name == "append" && len(call.Args) >= 2 {
+								stored = call.Args[1:]
+							}
+						}
+						for _, sv := range stored {
+							directRoots[fn] = append(directRoots[fn], rootRe.FindAllString(f.norm(sv), -1)...)
+						}
 					}
 				}
 				return true
@@ -176,8 +200,13 @@ func ruleR3Prereg(c *Ctx) []Obligation {
 			root string
 		}
 		var users, registrants []role
+		for fn, roots := range directRoots {
+			for _, r := range roots {
+				registrants = append(registrants, role{fn, r})
+			}
+		}
 		for fn, fd := range decl {
-			if fn == acc.fn || regs[fn] {
+			if fn == acc.fn || regs[fn] && len(directRoots[fn]) == 0 {
 				continue
 			}
 			f := r2sibFuncOf(c, p, fd)
